@@ -747,6 +747,18 @@ def _replay_with_script(unit, ctx, st, goal, r, spec, fname, timeout_ms) -> bool
         try:
             cz = Concretizer(ctx.I, model)
             spec["args"] = {n: cz.value(v) for n, v in ctx.args.items()}
+            # rows of the entry state the unit declares relevant: {table: {column: z3 term}} -> concrete values
+            rows = {}
+            for tname, cols in (ctx.extra.get("replay_rows") or {}).items():
+                rows[tname] = {}
+                for cname, term in cols.items():
+                    v = model.eval(term, model_completion=True)
+                    if z3.is_bool(v):
+                        rows[tname][cname] = bool(z3.is_true(v))
+                    else:
+                        n_ = v.as_long()
+                        rows[tname][cname] = {"int": n_, "text": cz.s(term)}
+            spec["rows"] = rows
         except Exception as e:  # noqa
             spec["concretize_error"] = f"{type(e).__name__}: {e}"
             return False
@@ -767,14 +779,11 @@ def _replay_with_script(unit, ctx, st, goal, r, spec, fname, timeout_ms) -> bool
     spec["native"] = {"verdict": verdict, "output": out}
     with open(fname, "w") as fh:
         json.dump(spec, fh, indent=1, default=str)
-    if verdict == "error":
+    if verdict != "violates":
+        # the harness of a composed unit rebuilds only part of the model (one row, one object): not reproducing the failure
+        # on the models tried does not refute the failed obligation -- it is reported without a failing input
         return False
-    r.replay, r.replay_verdict, r.detail, r.model = fname, verdict, out, None
-    if verdict == "violates":
-        r.status = "violation"
-    else:
-        r.status = "undecided"
-        r.detail = "counter-model is spurious: the real code satisfies the postcondition on it; " + out
+    r.replay, r.replay_verdict, r.detail, r.model, r.status = fname, verdict, out, None, "violation"
     return True
 
 
